@@ -100,7 +100,7 @@ impl Prop for C14 {
             Leg {
                 name: "random",
                 kind: LegKind::Random {
-                    cases: tier.pick(12, 60),
+                    cases: tier.pick(60, 400),
                 },
                 workers: 16,
                 build: Build::Normal,
